@@ -381,7 +381,7 @@ pub fn replay(j: &J) -> Result<Acc, String> {
     let mut acc = Acc::new();
     if fl != flavour() {
         if let Ok(bin) = std::env::var("VERIF_PLAIN_BIN") {
-            let tmp = format!("/verif/replays/.c17-replay-{}.json", std::process::id());
+            let tmp = format!("{}/replays/.c17-replay-{}.json", crate::report::verif_dir(), std::process::id());
             std::fs::write(&tmp, json::obj(vec![("property", json::s("C17")), ("replay", j.clone())]).to_string()).map_err(|e| e.to_string())?;
             let w = run_workers(&bin, vec![vec!["replay".into(), tmp.clone(), "--worker".into()]], 1);
             let _ = std::fs::remove_file(&tmp);
